@@ -160,6 +160,10 @@ func (p c19) Run(c *core.Ctx, idx int) {
 		if d := dp.Diff(s, t, capt.Root, cmp); d != "" {
 			c.Violate("roundtrip/"+w.name+"/"+fam+"/"+diffClass(d)+typeClass(s, d), "%s then ReadXMLDoc yields a different tree:\n%s\nxml: %s\n%s", w.name, d, head(out, 1500), wit())
 		}
+		for _, pr := range capt.Problems {
+			c.Violate("roundtrip/"+w.name+"/"+fam+"/protocol/"+strings.SplitN(strings.SplitN(pr, ": ", 2)[len(strings.SplitN(pr, ": ", 2))-1], " ", 3)[0], "importing the %s output: %s\nxml: %s\n%s", w.name, pr, head(out, 1500), wit())
+			break
+		}
 	}
 	// interleavings of a reference document
 	for k := 0; k < 5; k++ {
@@ -184,6 +188,10 @@ func (p c19) Run(c *core.Ctx, idx int) {
 		}
 		if d := dp.Diff(s, t, capt.Root, cmp); d != "" {
 			c.Violate("interleave/"+fam+"/"+diffClass(d)+typeClass(s, d), "interleaved siblings import to a different tree:\n%s\nxml: %s\n%s", d, head(doc, 1500), wit())
+		}
+		for _, pr := range capt.Problems {
+			c.Violate("interleave/"+fam+"/protocol", "importing a reference document: %s\nxml: %s\n%s", pr, head(doc, 1500), wit())
+			break
 		}
 		c.Count("interleavings")
 	}
